@@ -372,6 +372,8 @@ type Job struct {
 	Blocks []BlockSpec `json:"blocks"`
 	Want   []string    `json:"want,omitempty"` // invariants / observations to evaluate on the final state
 	Dump   bool        `json:"dump,omitempty"`
+	// Args: parameters of shard evaluators (invariants that enumerate inputs on the final state)
+	Args map[string]string `json:"args,omitempty"`
 }
 
 type TxRes struct {
@@ -404,6 +406,8 @@ type JobResult struct {
 	Err      string                 `json:"err,omitempty"`
 	Dump     map[string]string      `json:"dump,omitempty"`
 	Errlog   string                 `json:"errlog,omitempty"`
+	// AppPanic: the real application panicked while executing a block (BeginBlock..Commit)
+	AppPanic string `json:"app_panic,omitempty"`
 }
 
 // bufLogger collects error-level log lines (os.Exit paths of the app log there first).
@@ -441,6 +445,8 @@ type replica struct {
 	// successful plain sends addressed to a module account (by module name): "donations" nobody staked
 	donated map[string]int64
 	mon     map[string]map[string]interface{}
+	args    map[string]string
+	inBlock bool // between BeginBlock and Commit of the real application
 }
 
 func newReplica(env EnvCfg) *replica {
@@ -607,6 +613,7 @@ func (r *replica) runBlock(b BlockSpec) BlockRes {
 		edpk, _ := pcrypto.NewPublicKeyBz(pk)
 		votes = append(votes, abci.VoteInfo{Validator: abci.Validator{Address: edpk.Address(), Power: r.valset[k]}, SignedLastBlock: signed})
 	}
+	r.inBlock = true
 	r.app.BeginBlock(abci.RequestBeginBlock{Hash: block.Hash(), Header: header, LastCommitInfo: abci.LastCommitInfo{Votes: votes}, ByzantineValidators: byz})
 	batch := txindexBatch(len(txs))
 	for i, tx := range txs {
@@ -628,6 +635,7 @@ func (r *replica) runBlock(b BlockSpec) BlockRes {
 	eb := r.app.EndBlock(abci.RequestEndBlock{Height: h})
 	br.ValUpdates = r.foldValUpdates(eb.ValidatorUpdates)
 	cm := r.app.Commit()
+	r.inBlock = false
 	_ = r.txi.AddBatch(batch)
 	r.appHash = cm.Data
 	br.AppHash = hex.EncodeToString(cm.Data)
@@ -709,12 +717,17 @@ func (r *replica) dumpState() map[string]string {
 
 // runJob executes a job inside a worker.
 func runJob(job Job) (res JobResult) {
+	var r *replica
 	defer func() {
 		if p := recover(); p != nil {
 			res.Err = fmt.Sprintf("panic: %v\n%s", p, tail(string(debug.Stack()), 1800))
+			if r != nil && r.inBlock && !strings.HasPrefix(fmt.Sprint(p), "harness:") {
+				res.AppPanic = fmt.Sprintf("%v at height %d", p, r.height+1)
+			}
 		}
 	}()
-	r := newReplica(job.Env)
+	r = newReplica(job.Env)
+	r.args = job.Args
 	for i := 0; i < job.Env.Warmup; i++ {
 		b := BlockSpec{}
 		if i == job.Env.Warmup-1 {
